@@ -129,6 +129,13 @@ func buildWith(s *gen.SchedWorld, c *ev.Ctx, so sim.Options) *builtWorld {
 				continue
 			}
 			dp := sim.DaemonPod(ds, n)
+			// world consistency: the kubelet would not have admitted a daemon pod beyond the node's allocatable either
+			used[n] = append(used[n], dp)
+			if ok, _ := ref.Fits(ref.SumRequests(used[n]...), bn.Node.Status.Allocatable); !ok {
+				used[n] = used[n][:len(used[n])-1]
+				c.Count("daemon_pod_dropped_overcommit")
+				continue
+			}
 			w.Apply(dp)
 			b.Originals[dp.UID] = dp.DeepCopy()
 		}
